@@ -384,6 +384,48 @@ def tdiv_r (minus : Nat) (s : St) (rem num den : Nat) : Option St :=
 
 def mpz_tdiv_r (s : St) (rem num den : Nat) : Option St := tdiv_r 0 s rem num den
 
+/-! ### mpz_tdiv_qr — mpz/tdiv_qr.c (two destinations; quot and rem must be different variables) -/
+
+/-- mpn_tdiv_qr (qp, rp, 0, np, nl, dp, dl): the contract (C02 `tdiv_qr_contract`): reads np[0,nl), dp[0,dl); writes exactly
+    `nl - dl + 1` quotient limbs to qp and `dl` remainder limbs to rp -/
+def mpn_tdiv_qr_S (s : St) (qp rp : Ptr) (np : Src) (nl : Nat) (dp : Src) (dl : Nat) : St :=
+  let q := toLimbs (nl - dl + 1) (val (s.rdS np nl) / val (s.rdS dp dl))
+  let r := toLimbs dl (val (s.rdS np nl) % val (s.rdS dp dl))
+  ((s.chk (s.rdOkS np nl && s.rdOkS dp dl)).wr qp q).wr rp r
+
+/-- mpz_tdiv_qr (quot, rem, num, den), tdiv_qr.c:30-102; `none` = DIVIDE_BY_ZERO.  `ql - qminus`, `dl - rminus` = the sizes
+    requested from MPZ_REALLOC (`ql`, `dl` in the C). -/
+def tdiv_qr (qminus rminus : Nat) (s : St) (quot rem num den : Nat) : Option St :=
+  let ns := s.SIZ num                                                         -- tdiv_qr.c:37
+  let ds := s.SIZ den                                                         -- :38
+  let nl := ns.natAbs                                                         -- :39
+  let dl := ds.natAbs                                                         -- :40
+  if dl == 0 then none                                                        -- :43-44
+  else
+    let s := MPZ_REALLOC s rem (dl - rminus)                                  -- :46
+    if nl + 1 ≤ dl then                                                       -- :48 ql <= 0
+      let s :=
+        if num != rem then                                                    -- :50
+          (MPN_COPY s (s.PTR rem) (s.PTR num) nl).setSize rem ns              -- :53-56
+        else s
+      some (s.setSize quot 0)                                                 -- :60 "needs to follow the assignment to rem"
+    else
+      let ql := nl - dl + 1                                                   -- :41
+      let s := MPZ_REALLOC s quot (ql - qminus)                               -- :64
+      let qp := s.PTR quot                                                    -- :67
+      let rp := s.PTR rem                                                     -- :68
+      let np := s.PTR num                                                     -- :69
+      let dp := s.PTR den                                                     -- :70
+      let cd := copyIfSame (den == rem || den == quot) s dp dl                -- :77-84 dp == rp || dp == qp
+      let cn := copyIfSame (num == rem || num == quot) cd.2 np nl             -- :86-93 np == rp || np == qp
+      let s := mpn_tdiv_qr_S cn.2 qp rp cn.1 nl cd.1 dl                       -- :95
+      let (top, s) := s.load qp (ql - 1)                                      -- :97
+      let (dl', s) := MPN_NORMALIZE s rp dl                                   -- :98
+      let s := s.setSize quot (sgn (Mpz.diffSign ns ds) (ql - (if top == 0 then 1 else 0)))   -- :100
+      some (s.setSize rem (sgn (ns < 0) dl'))                                 -- :101
+
+def mpz_tdiv_qr (s : St) (quot rem num den : Nat) : Option St := tdiv_qr 0 0 s quot rem num den
+
 /-! ### mpz_sqrt — mpz/sqrt.c -/
 
 /-- mpn_sqrtrem (sp, NULL, np, nn), np[nn-1] != 0: the contract: reads np[0,nn); writes the (nn+1)/2 limbs of ⌊√N⌋ to sp -/
